@@ -4,6 +4,7 @@ import TM.Mouse
 import TM.Stream
 import TM.Scrollback
 import TM.Mirror
+import TM.SpanLine
 /-!
 # Driver — line-protocol executable running the model in lock-step with the harness.
 
@@ -91,6 +92,60 @@ def rowOfStr (s : String) : Option Row :=
     match part.splitOn "*" with
     | [n, c] => (cellOfStr c).map fun cell => r ++ List.replicate n.toNat! cell
     | _ => none) (some [])
+
+
+/-! ### span-buffer rows (`sl` command): runs as `sty;hex|-;rune;width`, joined by `_` -/
+
+def spanStr (sp : Span) : String :=
+  styStr sp.sty ++ ";" ++ hexOrDash sp.text ++ ";" ++ toString sp.rune ++ ";" ++ toString sp.width
+
+def spansStr (l : List Span) : String := if l.isEmpty then "-" else "_".intercalate (l.map spanStr)
+
+def spanOfStr (s : String) : Option Span :=
+  match s.splitOn ";" with
+  | [st, hx, r, w] => do
+    let sty ← styOfStr st
+    let b ← bytesOfHex hx
+    pure ⟨sty, b, r.toNat!, w.toNat!⟩
+  | _ => none
+
+def spansOfStr (s : String) : List Span :=
+  if s = "-" then [] else (s.splitOn "_").filterMap spanOfStr
+
+def b01 (b : Bool) : String := if b then "1" else "0"
+
+/-- one row-level operation of the span buffer on a row sent by the harness; prints
+    `runs cached shift startFill endFill A B idx off okBefore okAfter cells text` -/
+def slOp (cw : Nat → Nat) (op : String) (W : Nat) (cur : Style) (l : SLine) (x n : Nat) (ins : Span) (keep : Bool) : String :=
+  let okB := lineOK cw W l
+  let none' : Int := -1
+  let (l', sh, sf, ef, a, b, idx, off, txt) : SLine × Nat × Nat × Nat × Int × Int × Nat × Nat × Bytes :=
+    match op with
+    | "rr" => let (r, i) := replaceRangeWide cw l x n ins keep; (r, i.shift, i.startFill, i.endFill, none', none', 0, 0, [])
+    | "trunc" => (truncateLine cw l x cur, 0, 0, 0, none', none', 0, 0, [])
+    | "resize" => (resizeLine cw l x cur, 0, 0, 0, none', none', 0, 0, [])
+    | "find" => let (i, o) := findSpanAtX l x; (l, 0, 0, 0, none', none', i, o, [])
+    | "write" =>
+      if ins.width = 0 then (l, 0, 0, 0, none', none', 0, 0, []) else
+      let (r, s, a, b) := writeSpanLine cw W cur l x ins keep; (r, s, 0, 0, (a : Int), (b : Int), 0, 0, [])
+    | "dch" =>
+      if n = 0 ∨ x ≥ W then (l, 0, 0, 0, none', none', 0, 0, []) else
+      let (r, a) := deleteCharsLine cw W cur l x n; (r, 0, 0, 0, (a : Int), (W : Int), 0, 0, [])
+    | "erase" =>
+      -- `Region.Clamp` to [0, W]
+      let a := min x W
+      let b := max (min n W) a
+      if b ≤ a then (l, 0, 0, 0, none', none', 0, 0, []) else
+      let (r, _, p, q) := writeSpanLine cw W cur l a (blankSpan cur (b - a)) false
+      (r, 0, 0, 0, (p : Int), (q : Int), 0, 0, [])
+    | "text" => (l, 0, 0, 0, none', none', 0, 0, lineText W l)
+    | "styled" =>
+      -- `n = 4294967295` stands for a negative width ("to the end of the row")
+      let (sp, w) := styledLine cw W l x (if n = 4294967295 then none else some n)
+      (⟨sp, w⟩, 0, 0, 0, none', none', 0, 0, [])
+    | _ => (l, 0, 0, 0, none', none', 0, 0, [])
+  let cells := lineCells cw l'
+  s!"{spansStr l'.spans} {l'.width} {sh} {sf} {ef} {a} {b} {idx} {off} {b01 okB} {b01 (lineOK cw W l')} {if cells.isEmpty then "-" else (rowStr cells).replace " " "_"} {hexOrDash txt}"
 
 def scrLine (tag : String) (s : Scr) (k : Kbd) : String :=
   s!"{tag} {s.w} {s.h} {s.cx} {s.cy} {s.sx} {s.sy} {s.top} {s.bot} {if s.wrap then 1 else 0} {styStr s.sty} {k.flags} {natsStr k.stack}"
@@ -297,6 +352,13 @@ partial def loop (wt : WidthTable) (h : IO.FS.Stream) (d : DState) : IO Unit := 
       | _ => []
     let o ← IO.getStdout
     o.putStrLn (hexOrDash out); o.flush
+    loop wt h d
+  | ["sl", op, w, cur, cached, spans, x, n, ins, keep] =>
+    let l : SLine := ⟨spansOfStr spans, cached.toNat!⟩
+    let o ← IO.getStdout
+    o.putStrLn (slOp wt.lookup op w.toNat! ((styOfStr cur).getD Style.default) l x.toNat! n.toNat!
+      ((spanOfStr ins).getD Span.empty) (keep = "1"))
+    o.flush
     loop wt h d
   | ["ansi", fg, bg, ul] =>
     let st : Style := ⟨BitVec.ofNat 32 fg.toNat!, BitVec.ofNat 32 bg.toNat!, BitVec.ofNat 32 ul.toNat!⟩
